@@ -197,7 +197,7 @@ func genVCs(w *World, db *ContractDB, ct *Contract) (res *FnResult) {
 			}
 			_ = k
 			e.addOb("post", en.Text, en.Tags, en.Src+" @return "+r.pos, r.cond, t)
-			if imp := implicationAntecedent(en.Expr); imp != nil {
+			if imp := implicationAntecedent(en.Expr); imp != nil && speaksOfSuccess(imp) {
 				if at, err := penv.evalBool(&SpecExpr{Expr: imp, Text: en.Text, Src: en.Src}); err == nil {
 					anteReach[en] = append(anteReach[en], and(r.cond, at))
 				}
@@ -551,4 +551,27 @@ func implicationAntecedent(x ast.Expr) ast.Expr {
 		}
 	}
 	return nil
+}
+
+// speaksOfSuccess: the antecedent tests a result (or a named error result) against nil -- the shape "on success ...".
+// Only such clauses get a reachability guard: a generic clause ("if the result is an *Abort then ...") may legitimately
+// have an antecedent that a particular function never makes true.
+func speaksOfSuccess(x ast.Expr) bool {
+	hit := false
+	ast.Inspect(x, func(n ast.Node) bool {
+		be, ok := n.(*ast.BinaryExpr)
+		if !ok {
+			return true
+		}
+		if be.Op.String() != "==" {
+			return true
+		}
+		l, lok := be.X.(*ast.Ident)
+		r, rok := be.Y.(*ast.Ident)
+		if lok && rok && r.Name == "nil" && (strings.HasPrefix(l.Name, "result") || l.Name == "err") {
+			hit = true
+		}
+		return !hit
+	})
+	return hit
 }
